@@ -1758,8 +1758,12 @@ impl HnswIndex {
         let nodes = self.nodes.pin();
         match strategy {
             SelectNeighborsStrategy::Simple => {
-                // Simple strategy: select m closest neighbors
+                // Simple strategy: select m closest neighbors. Among the
+                // live ones, like the heuristic below: a removed node (or a
+                // stale neighbor id) can never be a useful edge and must not
+                // occupy a slot ahead of a live candidate.
                 let mut selected = candidates;
+                selected.retain(|candidate| nodes.contains_key(&candidate.0));
                 selected
                     .sort_unstable_by(|a, b| a.1.partial_cmp(&b.1).unwrap_or(cmp::Ordering::Equal));
                 selected.truncate(m);
